@@ -73,17 +73,18 @@ class FormulaEvaluator(Generic[QuantityT]):
         for metric_ts, names in metrics_by_ts.items():
             if metric_ts == latest_ts:
                 continue
-            while metric_ts < latest_ts:
-                for name in names:
-                    fetcher = self._metric_fetchers[name]
+            for name in names:
+                fetcher = self._metric_fetchers[name]
+                name_ts = metric_ts
+                while name_ts < latest_ts:
                     next_val = await fetcher.fetch_next()
                     assert next_val is not None
-                    metric_ts = next_val.timestamp
-            if metric_ts > latest_ts:
-                raise RuntimeError(
-                    "Unable to synchronize resampled metric timestamps, "
-                    f"for formula: {self._name}"
-                )
+                    name_ts = next_val.timestamp
+                if name_ts > latest_ts:
+                    raise RuntimeError(
+                        "Unable to synchronize resampled metric timestamps, "
+                        f"for formula: {self._name}"
+                    )
         self._first_run = False
         return latest_ts
 
